@@ -6,7 +6,7 @@ CONSTANTS
   Starts = {}
   HdrLen = 32
   EntLen = 12
-  FlushFirst = FALSE
+  FlushFirst = TRUE
 INVARIANT Verdict
 POSTCONDITION Accepted
 CHECK_DEADLOCK FALSE
